@@ -22,7 +22,8 @@ PROPS["C08"] = dict(
         "os.MkdirTemp/Rename/RemoveAll/Stat succeed or fail only as the model says (rename fails iff the target exists); no I/O errors",
         "the backend FileSystem is the harness's recording fake shaped after fs/fs.go: Mount failure registers nothing, Check/Unmount of an "
         "unregistered mountpoint fail, a failed Unmount leaves the mountpoint registered",
-        "callers use non-empty keys and pass only snapshots.WithLabels options",
+        "callers use non-empty keys and pass snapshots.WithLabels and/or snapshots.WithParent options (label keys inside and outside the snapshot namespace, empty values, empty target ref); "
+        "outside the domain: WithParent naming the commit's own name (real storage creates a self-parented snapshot and later hangs: known finding, oracle-only scenario)",
     ],
     level_text="Coq theorems over every history of snapshotter calls and every assignment of backend Mount/Check/Unmount results on the model "
                "of snapshot/snapshot.go + containerd snapshots/storage (invariant by induction over fold_left step). "
